@@ -74,6 +74,7 @@ type TupleV []Value
 type rangeIter struct {
 	m    *MapObj
 	str  string
+	sym  []*Term // string with symbolic bytes (then str is unused)
 	pos  int
 	isS  bool
 	keys []int // snapshot of entry indexes in iteration order
